@@ -127,7 +127,7 @@ theorem so3_calc_S1_toM (b : Vec ℝ 3) :
   generalize Trig.cos_2 (sqNorm b) = c2
   generalize Trig.sin_3 (sqNorm b) = s3
   fin_cases i <;> fin_cases j <;>
-    simp [mmul, vsum, SO3.hat, ident, mat3, K3]
+    simp [mmul, msmul, vsum, SO3.hat, ident, mat3, K3] <;> ring
 
 
 /-- product of two polynomials `1 + fK + gK²` in the same `K` (uses `K³ = −nK`) -/
